@@ -2,6 +2,7 @@ import AslProofs.ArrayRefine
 import AslProofs.ArraySpecLemmas
 import AslProofs.ArrayQsort
 import AslProofs.ArrayQsortTotal
+import AslProofs.ArrayQsortSorted
 /-!
 # C01 — Array, Stack and Queue behave as a sequence for every operation history
 
@@ -20,6 +21,9 @@ no reference count, no storage).  Helper lemmas: `AslProofs/Array*.lean`.
 * `array_full_counterexample`: without that hypothesis the statement is false (known finding `shared-growth`).
 * `lifecycle`: live objects = total length of live blocks in every reachable state; all handles dropped ⇒ no
   block left and no live object.
+* `quicksort_total`, `quicksort_sorted_perm`: the Hoare-partition quicksort behind `sort()` stays inside its
+  sequence, terminates, and returns the sorted permutation.
+* `clone_independent`, `stack_lifo`, `queue_fifo`: consequences inside the reference semantics.
 -/
 namespace C01
 open AslModel.Arr AslProofs.Arr AslProofs.ArrSpec
@@ -159,25 +163,21 @@ hypothesis about `sort` from `array_refines_seq_partial`. -/
 theorem quicksort_total (lt : α → α → Bool) (hirr : ∀ x, lt x x = false) (l : List α) :
     (qsortList lt l).isSome = true := qsortList_total lt hirr l
 
-/-- the full statement about the *value* of `sort`: for a strict total order the transcribed quicksort returns the
-sorted sequence (`isort` = insertion sort, the reference) -/
-def quicksort_full : Prop :=
-  ∀ (β : Type) (lt : β → β → Bool),
-    (∀ a, lt a a = false) → (∀ a b c, lt a b = true → lt b c = true → lt a c = true) →
-    (∀ a b, lt a b = true ∨ a = b ∨ lt b a = true) →
-    ∀ l : List β, qsortList lt l = some (isort lt l)
+/-- **`sort` sorts** (`quicksort_sorted_perm` of the design): for every strict total order and every sequence the
+transcribed quicksort returns a permutation of the input in non-decreasing order.  Together with
+`array_refines_seq_partial` (whose reference semantics defines the sorted array by this very function) the value
+of `a.sort()` is the sorted permutation of `a`. -/
+theorem quicksort_sorted_perm [DecidableEq α] (lt : α → α → Bool) (hst : StrictTotal lt) (l : List α) :
+    ∃ l', qsortList lt l = some l' ∧ l'.Perm l ∧
+      ∀ (i j : Nat) (x y : α), i < j → l'[i]? = some x → l'[j]? = some y → lt y x = false := by
+  obtain ⟨l', hl'⟩ := Option.isSome_iff_exists.mp (qsortList_total lt hst.irr l)
+  refine ⟨l', hl', qsortList_perm lt hl', ?_⟩
+  intro i j x y hij hx hy
+  exact qsortList_sorted lt hst hl' i j x y (Nat.zero_le _) hij (lt_len_of_some hy) hx hy
 
-/-- proved part 1: the result of the quicksort is a permutation of the input of the same length (for any
-comparison function whatsoever) -/
-theorem quicksort_perm_partial [DecidableEq α] (lt : α → α → Bool) (l l' : List α) (h : qsortList lt l = some l') :
-    l'.Perm l ∧ l'.length = l.length :=
-  ⟨qsortList_perm lt h, qsortList_length lt h⟩
-
-/-- proved part 2: `quicksort_full` holds for every sequence of length ≤ 4 over four values — that is, for every
-order pattern (with and without repeated elements) of up to four elements — and for every sequence of length
-≤ 6 over three values -/
-theorem quicksort_small_exhaustive_partial : qsUpTo [0, 1, 2, 3] 4 = true ∧ qsUpTo [0, 1, 2] 6 = true := by
-  constructor <;> decide +kernel
+/-- the hypothesis is satisfiable: `<` on the integers (the order of `Array<int>` and of the counted type) -/
+example : StrictTotal (fun a b : Int => decide (a < b)) :=
+  ⟨fun a => by simp, fun a b c h1 h2 => by simp at *; omega, fun a b => by simp; omega⟩
 
 /-! ## consequences inside the reference semantics (inherited by the model through `array_refines_seq_partial`:
 every reachable model state is `Good st sp`, and `Good.spwf` gives the hypotheses used here) -/
